@@ -246,6 +246,25 @@ def m_int(it, *a, **k):
         raise PyRaise(e)
 
 
+def m_sorted(it, seq, *, key=None, reverse=False):
+    """sorted() with a key function of the interpreted program: the keys are computed through the interpreter and must be concrete and mutually comparable
+    (the order is then the stable order of those keys); without a key the items themselves must be concrete"""
+    items = list(it.iterate(seq))
+    if key is None:
+        if not all(it.concrete(x) for x in items):
+            raise Unsupported("sorted() of symbolic items")
+        keys = items
+    else:
+        keys = [it.unbase(it.call(key, [x], {})) for x in items]
+        if not all(it.concrete(k) for k in keys):
+            raise Unsupported("sorted() with symbolic keys")
+    try:
+        order = sorted(range(len(items)), key=lambda i: keys[i], reverse=bool(reverse))
+    except TypeError as e:
+        raise PyRaise(e)
+    return [items[i] for i in order]
+
+
 def m_hash(it, v):
     return it.hash_(v)
 
@@ -444,6 +463,7 @@ def install(it):
     M[tuple] = m_tuple
     M[set] = m_set
     M[dict] = m_dict
+    M[sorted] = m_sorted
     M[any] = m_any
     M[all] = m_all
     M[abs] = m_abs
